@@ -51,6 +51,10 @@ def sval(rng, t):
         return fhex(rng.choice(G.FLOATS + [1e15, -3.75e-3, 1 / 3.0, 1e56, 1e57, -1e58, 1e63, 1e64, 1e100, -1e300, 1.7976931348623157e308, 1e-300, 123456789012345678.0]))
     if t == 'bool':
         return str(rng.randint(0, 1))
+    if rng.random() < 0.04:
+        # long values (print buffers, scanner buffers): specials spread over the whole length
+        n = rng.choice([127, 128, 129, 254, 255, 256, 257, 300, 511, 512, 513, 700, 1023, 1024, 1025, 4100, 8200])
+        return hx(''.join(rng.choice(SPECIAL) if rng.random() < 0.3 else rng.choice('abcXYZ019 _-.') for _ in range(n)))
     return hx(rand_bytes(rng))
 
 
